@@ -158,9 +158,11 @@ class Result:
 
         shots = cast(int, self._shots)
 
-        ret = {}
+        ret: dict = {}
         for branch in self.branches:
-            ret[branch.outcome] = int(branch.frequency * shots)
+            ret[branch.outcome] = ret.get(branch.outcome, 0) + int(
+                branch.frequency * shots
+            )
 
         return ret
 
